@@ -1146,6 +1146,18 @@ func main() {
 				mu.Unlock()
 				continue
 			}
+			if len(f) > 1 && f[1] == "j" {
+				if js, ok := parseJoin(f[2:]); ok && suite == "join" {
+					k++
+					tag := fmt.Sprintf("in%d", k)
+					launch(func() { runJoinScript(out, &mu, scratch, tag, js) })
+				} else if !ok {
+					mu.Lock()
+					out.Line("# skipped malformed-input")
+					mu.Unlock()
+				}
+				continue
+			}
 			s, hd, ok := parseScript(f[1:])
 			if !ok {
 				mu.Lock()
@@ -1199,6 +1211,8 @@ func main() {
 			if suite == "cluster" {
 				s, repin := genClusterScript(r, a.Tier)
 				runClusterScript(out, &mu, scratch, fmt.Sprintf("s%d", k), s, repin)
+			} else if suite == "join" {
+				runJoinScript(out, &mu, scratch, fmt.Sprintf("s%d", k), genJoinScript(r, k))
 			} else if suite == "conc" {
 				runConcScript(out, &mu, scratch, fmt.Sprintf("s%d", k), genConcScript(r, k, a.Tier))
 			} else if suite == "fault" {
